@@ -1214,7 +1214,11 @@ const config_setting_t *config_setting_lookup_const(
     {
       char *q;
       long index = strtol(++p, &q, 10);
-      if(*q != ']')
+      if((q == p) || (*q != ']'))
+        return NULL;
+
+      /* The index must not be truncated when converted to unsigned int. */
+      if((index < 0) || (index > INT_MAX))
         return NULL;
 
       p = ++q;
